@@ -32,6 +32,7 @@ THEOREMS = [
     'C18.term_optional_args', 'C18.total_call_is_sum', 'C18.density_optional_args', 'C18.profile_setters_frame',
     'C18.guards_scale_free', 'C18.posToA123_scale', 'C18.inPlaneOk_scale', 'C18.xvectOk_scale', 'C18.model_units_switch', 'C18.E_scale',
     'C18.solve_not_raises_of_descent', 'C18.halfwidth_continuum_partial', 'C18.halfwidth_continuum_real',
+    'C18.EMany_length', 'C18.EMany_pointwise', 'C18.EMany_blocks', 'C18.EMany_single', 'C18.stress_second_row_only', 'C18.stress_symmetric_row_eq_col',
 ]
 PARTIAL = {
     'solve never raises the total energy': 'reduced by solve_not_raises_of_descent to the descent property of the minimiser (f(result) <= '
@@ -74,8 +75,8 @@ F = Fraction
 # ----------------------------------------------------------------------------------------
 # generators
 # ----------------------------------------------------------------------------------------
-GRIDS_DYADIC = [(4, 4), (4, 8), (8, 4), (2, 8), (8, 8), (4, 16)]
-GRIDS_GENERIC = [(3, 3), (3, 7), (5, 4), (6, 5), (5, 10), (3, 8), (7, 3), (10, 4), (6, 6), (4, 9), (9, 2)]
+GRIDS_DYADIC = [(4, 4), (4, 8), (8, 4), (2, 8), (8, 8), (4, 16), (2, 2), (2, 4)]
+GRIDS_GENERIC = [(3, 3), (3, 7), (5, 4), (6, 5), (5, 10), (3, 8), (7, 3), (10, 4), (6, 6), (4, 9), (9, 2), (2, 3), (3, 2)]
 # strongly anisotropic grids (one spacing more than 4x the other): the blend strip of the coarse direction is wider
 # than two cells of the fine one, so a cushion taken from the wrong direction sends sampled shifts outside the fit window
 GRIDS_ANISO = {'dyadic': [(2, 16), (16, 2), (2, 32), (4, 32)], 'generic': [(2, 9), (3, 13), (13, 3), (11, 2), (2, 12), (3, 16)]}
@@ -324,7 +325,7 @@ RULE = ('gamma surfaces: grids n1 x n2 in {2..32} incl. strongly anisotropic one
         'delta; 11 shift-vector/cell settings (rectangular, oblique, triclinic, fcc (111), hexagonal basal/prismatic, monoclinic, '
         'rotated triclinic: non-symmetric vects); queries through a1/a2, pos and x/y (default and given xvect, one and many '
         'points), sampled nodes plus integer periods, blend-strip edges; SDVPN: isotropic, cubic and hexagonal Volterra solutions '
-        'in 7 orientations, random disregistry profiles on uniform grids, random tau (row 2 non-zero)/alpha (1-3 coefficients)/'
+        'in 7 orientations, random disregistry profiles on uniform grids, random NON-symmetric 3x3 tau (second row differs from the second column; one in five symmetric)/alpha (1-3 coefficients)/'
         'beta (non-symmetric)/cut-off, all 16 combinations of fullstress x cdiffelastic x cdiffsurface x cdiffstress per system; '
         'edit sequences of 2-5 steps on ONE object (setters incl. obj.x / obj.disregistry, solve(**kwargs), load from '
         'DataModelDict/JSON/XML written in Å|nm|pm and GPa|MPa|eV/Å^3, same-length profile on a rescaled grid) with every term '
@@ -342,6 +343,11 @@ RULE = ('gamma surfaces: grids n1 x n2 in {2..32} incl. strongly anisotropic one
         'Fortran / read-only inputs; lengths x 2^k and energies x 2^j (|k|, |j| <= 200) with refusals decided by relative geometry; '
         'falsy-but-valid values through constructor / setters / solve / load; positional calls in the documented order; models from '
         'str / path / binary handle / BytesIO; one object solved repeatedly with other guesses; twin objects read in different orders; '
+        'COUNTS AND THRESHOLDS (op counts): ONE E_gsf / delta / conversion call with n points, n in {1, 2, 3, 2^e - 1, 2^e, 2^e + 1 (e = 2..17), 999..1001, '
+        '2001, 3073, 5001, 6143, 6145, 10001, 12289, 20001, 100001} (all <= 4097 every run, four larger ones per quick run), compared point by '
+        'point with the input data at sampled shifts, the same points in chunks and singly; gamma grids down to 2x2; SDVPN profiles of '
+        '2..5 and 2^e + {-1..3} points (e = 7..11) with 4-7 alpha coefficients; flags as 1 / 0 / numpy booleans; arctangent grids with xnum '
+        'as int / whole-number float / numpy scalars and 2..4097 points; one 2049 / 4097 / 6145-point query in the correspondence; '
         'distinct = distinct canonical driver line / oracle case; non-trivial = non-error reply with at least one non-zero input')
 
 
@@ -914,10 +920,26 @@ def gen_profile(rng, pn, n=None, dyadic=False):
     return x, d
 
 
+def _gen_tau(rng):
+    """the applied stress: ANY 3 x 3 array ("all stress settings"; the setter takes every 3 x 3 array and the documented
+    terms read the second ROW tau_2l only).  Drawn as a general NON-symmetric matrix whose second row differs from its
+    second column in both off-diagonal places (so that a row / column or an index slip shows for every flag
+    combination); one case in five is symmetrised."""
+    np = _np()
+    while True:
+        tau = np.array([[cm.dyadic(rng, -1, 1, 5) * 0.05 for _ in range(3)] for _ in range(3)])
+        if rng.random() < 0.2:
+            tau = (tau + tau.T) / 2
+            if not any(tau[1]):
+                tau[1, 0] = tau[0, 1] = 0.0125
+            return tau
+        if tau[1, 0] != tau[0, 1] and tau[1, 2] != tau[2, 1] and tau[1, 0] != 0.0 and tau[1, 2] != 0.0:
+            return tau
+
+
 def gen_settings(rng, pn, symmetric_beta=False):
     np = _np()
-    tau = np.array([[cm.dyadic(rng, -1, 1, 5) * 0.05 for _ in range(3)] for _ in range(3)])
-    tau = (tau + tau.T) / 2
+    tau = _gen_tau(rng)
     beta = np.array([[cm.dyadic(rng, -1, 1, 4) * 0.3 for _ in range(3)] for _ in range(3)])
     if symmetric_beta:
         beta = (beta + beta.T) / 2
@@ -987,7 +1009,7 @@ def model_terms(ctx, pn, rec, cs, spec, x, d):
     lines = {
         'elastic': f'elastic {_b(pn.cdiffelastic)} {pi} {n} {xs} {ds} {Kt} ' + cm.frs(logs),
         'longrange': f'long {pi} {cm.fr(float(np.log(pn.cutofflongrange)))} {cm.frs(pn.burgers)} {Kt}',
-        'stress': f'stress {_b(pn.fullstress)} {_b(pn.cdiffstress)} {n} {xs} {ds} ' + cm.frs(pn.tau[1, :]),
+        'stress': f'stressT {_b(pn.fullstress)} {_b(pn.cdiffstress)} {n} {xs} {ds} ' + cm.frs(np.asarray(pn.tau, dtype=float)),     # the whole array: the model picks the row
         'surface': f'surface {_b(pn.cdiffsurface)} {n} {xs} {ds} ' + cm.frs(pn.beta),
         'nonlocal': f'nonlocal {n} {xs} {ds} {len(pn.alpha)} ' + cm.frs(list(pn.alpha)),
     }
@@ -1175,10 +1197,7 @@ def rand_settings(rng, flags=None, physical=False):
     `physical`: alpha, beta >= 0 and a small stress, so that the total energy is bounded below (a real minimiser run
     on an unbounded energy walks off to disregistries of 1e8 b, where the O(|a|) wrap loop of E_gsf never ends)."""
     np = _np()
-    tau = np.array([[cm.dyadic(rng, -1, 1, 5) * 0.05 for _ in range(3)] for _ in range(3)])
-    tau = (tau + tau.T) / 2
-    if rng.random() < 0.8 and not any(tau[1]):
-        tau[1, 0] = tau[0, 1] = 0.0125
+    tau = _gen_tau(rng)
     beta = [[cm.dyadic(rng, -1, 1, 4) * 0.3 for _ in range(3)] for _ in range(3)]
     k = rng.choice([1, 1, 2, 3])
     alpha = [cm.dyadic(rng, -1, 1, 4) * 0.2 for _ in range(k)]
@@ -1493,6 +1512,22 @@ def correspond(ctx):
         if rnd is not None:
             guarded(ctx, 'nearest', rep, _nearest_case, ctx, spec, g, rnd, gen_queries(rng, spec, ctx.n(4, 10), F(0), F(0)), 'delta')
         guarded(ctx, 'conv', rep, _conv_case, ctx, spec, g, rng)
+    # ONE call with a number of points at which block-wise evaluation would switch on (2^11 +- 1, 2^12 + 1, 3 * 2^11 + 1):
+    # still exactly four interpolant calls, every point blended by the model
+    for it in range(ctx.n(1, 4)):
+        spec = gen_gamma_spec(rng, regime='dyadic', vects=VECTS[rng.randrange(len(VECTS))], grid=rng.choice([(4, 4), (2, 8), (2, 2)]), dup=(it % 2 == 1), delta=False)
+        g = call(mk_gamma, spec)
+        if isinstance(g, Raised):
+            continue
+        rep = {'op': 'gamma', 'spec': spec}
+        cs = guarded(ctx, 'fit', rep, _fit_case, ctx, spec, g, 'E')
+        if cs is None:
+            continue
+        rec, _ = spy(g)
+        m_ = [2049, 4097, 2047, 6145][it % 4]
+        qs = gen_queries(rng, spec, 64, F(cs[0]), F(cs[1]))
+        qs = [(qs[i % 64][0] + (i // 64) % 3, qs[i % 64][1] - (i // 192) % 2) for i in range(m_)]
+        guarded(ctx, 'egsf', rep, _egsf_case, ctx, spec, g, rec, cs, qs, 'a12' if it % 2 == 0 else 'pos')
     # the conversions and their two refusals with the whole geometry scaled by 2^k (model: `guards_scale_free`)
     for it in range(ctx.n(8, 40)):
         k = rng.choice([-200, -100, -33, -10, 10, 33, 100, 200])
@@ -2481,21 +2516,24 @@ def chk_arctan(ctx, case):
         n_ = gk['n']
         xm = gk['xmax']
         x = np.array([-xm + (2 * xm) * i / (n_ - 1) for i in range(n_)])
-        kwx = {k: {'xmax': xm, 'xstep': gk['xstep'], 'xnum': n_}[k] for k in gk['given']}
+        # the number of points as a python int, a WHOLE-NUMBER float (the code documents "round xnum to int if needed"),
+        # or the numpy scalars of the two
+        xn = {'int': int, 'float': float, 'np.int64': np.int64, 'np.float64': np.float64}[gk.get('xnum_form', 'int')](n_)
+        kwx = {k: {'xmax': xm, 'xstep': gk['xstep'], 'xnum': xn}[k] for k in gk['given']}
     else:
         x = np.array(case['x'])
         kwx = {'x': x}
     r = call(am.defect.pn_arctan_disregistry, burgers=b, center=c, halfwidth=w, normalize=case['normalize'], shift=case['shift'], **kwx)
     r2 = call(am.defect.pn_arctan_disldensity, burgers=b, center=c, halfwidth=w, normalize=case['normalize'], **kwx)
-    ctx.stats.case('s:arctan', (tuple(x), tuple(b), c, w, case['normalize'], case['shift'], str(sorted(kwx))))
+    ctx.stats.case('s:arctan', (tuple(x), tuple(b), c, w, case['normalize'], case['shift'], str(sorted(kwx)), (case.get('grid') or {}).get('xnum_form')))
     if case.get('grid') is not None and not isinstance(r, Raised) and not isinstance(r2, Raised):
         wv = _cmp(r[0], x, 1e-13, 1e-13) or _cmp(r2[0], x, 1e-13, 1e-13)
         if wv:
-            bad('grid', f'pn_arctan_*({ {k: kwx[k] for k in kwx} }) does not use the {n_} points from -xmax to xmax with spacing xstep: {wv}')
+            bad('grid', f'pn_arctan_*({ {k: (repr(kwx[k]) if k == "xnum" else kwx[k]) for k in kwx} }) does not use the {n_} points from -xmax to xmax with spacing xstep: {wv}')
             return
         x = np.asarray(r[0], dtype=float)
     if isinstance(r, Raised) or isinstance(r2, Raised):
-        bad('raises', f'pn_arctan_*({"x=..." if "x" in kwx else kwx}) {r if isinstance(r, Raised) else r2}')
+        bad('raises', f'pn_arctan_*({"x=..." if "x" in kwx else {k: (repr(v_) if k == "xnum" else v_) for k, v_ in kwx.items()}}) {r if isinstance(r, Raised) else r2}')
         return
     raw = [[bi / math.pi * math.atan((xi - c) / w) + bi / 2 for bi in b] for xi in x]
     nb = math.sqrt(sum(bi * bi for bi in b))
@@ -4177,8 +4215,396 @@ def gen_xcut_cases(ctx, rng, broken):
     return cases
 
 
+# -- counts and thresholds: query arrays / profiles of the sizes where block-wise evaluation, packed keys and fast paths
+#    switch on or run out (powers of two +- 1, k * block + 1, the smallest legal sizes) -------------------------------
+
+COUNT_SMALL = [1, 2, 3, 4, 5, 7, 8, 9, 15, 16, 17, 31, 32, 33, 63, 64, 65, 127, 128, 129, 255, 256, 257, 511, 512, 513,
+               999, 1000, 1001, 1023, 1024, 1025, 2001, 2047, 2048, 2049, 3073, 4095, 4096, 4097]
+COUNT_LARGE = [5001, 6143, 6145, 8191, 8192, 8193, 10001, 12289, 16383, 16384, 16385, 20001, 32767, 32768, 32769,
+               65535, 65536, 65537, 100001, 131073]
+PROFILE_SIZES = [2, 3, 4, 5] + [2 ** e + k for e in (7, 8, 9, 10, 11) for k in (-1, 0, 1, 2, 3)]      # densities have n - 1 | n - 2 rows
+
+
+def gen_count_sizes(rng, thorough):
+    """the sizes of one `counts` case: every small one, and a few (thorough: all) of the large ones, among them always
+    one of the form 2^e + 1 >= 8193."""
+    big = list(COUNT_LARGE) if thorough else sorted(set(rng.sample(COUNT_LARGE, 3) + [rng.choice([8193, 16385, 32769, 65537])]))
+    return COUNT_SMALL + big
+
+
+def _count_queries(spec, n, seed):
+    """n query points (a1, a2) and the indices / input energies (and delta) of those that are sampled shifts moved by
+    integer periods.  The FIRST, the LAST and the points next to every multiple of a power of two >= 256 are such nodes
+    with a large |E| (a lost or zeroed value shows there), the others alternate between nodes and generic points."""
+    np = _np()
+    r = random.Random(seed * 1000003 + n)
+    ns = len(spec['a1'])
+    E = spec['E']
+    order = sorted(range(ns), key=lambda i: -abs(E[i]))
+    strong = order[:max(1, ns // 3)]
+    dy = spec['regime'] == 'dyadic'
+    special = {0, n - 1}
+    k = 256
+    while k <= n:
+        for j in range(k, n + 1, k):
+            special.update(t for t in (j - 2, j - 1, j) if 0 <= t < n)
+            if len(special) > 600:
+                break
+        k *= 2
+    q1, q2 = np.empty(n), np.empty(n)
+    node = np.full(n, -1, dtype=int)
+    gen1 = np.array([cm.dyadic(r, -3, 3, 5) if dy else r.uniform(-3, 3) for _ in range(min(n, 257))])
+    gen2 = np.array([cm.dyadic(r, -3, 3, 5) if dy else r.uniform(-3, 3) for _ in range(min(n, 263))])
+    for i in range(n):
+        if i in special or i % 2 == 0:
+            j = r.choice(strong) if i in special else r.randrange(ns)
+            node[i] = j
+            q1[i] = spec['a1'][j] + r.randint(-2, 2)
+            q2[i] = spec['a2'][j] + r.randint(-2, 2)
+        else:
+            q1[i] = gen1[i % len(gen1)] + (i // len(gen1)) % 3
+            q2[i] = gen2[i % len(gen2)] - (i // len(gen2)) % 2
+    return q1, q2, node
+
+
+def _chunked(fn, n, size, **arrs):
+    """fn evaluated on consecutive chunks of `size` points of the keyword arrays, joined."""
+    np = _np()
+    out = []
+    for i in range(0, n, size):
+        r = fn(**{k: v[i:i + size].copy() for k, v in arrs.items()})
+        out.append(np.atleast_1d(np.asarray(r, dtype=float)) if not isinstance(r, tuple) else np.array([np.ravel(t) for t in r], dtype=float).T)
+    return np.concatenate(out)
+
+
+def _special_idx(n):
+    idx = {0, n - 1, n // 2}
+    k = 1
+    while k <= n:
+        idx.update(t for t in (k - 2, k - 1, k) if 0 <= t < n)
+        k *= 2
+    return sorted(idx)
+
+
+def chk_counts_gamma(ctx, case, bad):
+    """ONE call with n query points is, point by point, the same points asked singly / in small chunks, and the input
+    energies at the sampled shifts -- for E_gsf (fit and nearest; a1/a2, pos, x/y), delta and the six conversions, with
+    n running over the sizes around powers of two, k * block + 1 and 1, 2, 3."""
+    np = _np()
+    spec = case['spec']
+    g = call(mk_gamma, spec)
+    if isinstance(g, Raised):
+        bad('construct', f'GammaSurface(...) {g}')
+        return
+    tag = f'[{spec["tag"]} grid {spec["n1"]}x{spec["n2"]} dup={spec["dup"]}]'
+    A1, A2 = o_cart(spec)
+    A1f, A2f = np.array([float(t) for t in A1]), np.array([float(t) for t in A2])
+    scale = max(1.0, max(abs(v) for v in spec['E']))
+    L = max(1.0, max(abs(float(t)) for t in A1 + A2))
+    cond = o_fit_cond(spec)
+    tolE = 256 * EPS * cond * scale + 1e-9 * scale
+    has_d = spec['delta'] is not None
+    dscale = max(1.0, max(abs(v) for v in spec['delta'])) if has_d else 1.0
+    tolD = 256 * EPS * cond * dscale + 1e-9 * dscale
+    c1_, c2_ = (1 - max(spec['a1'])) / 2, (1 - max(spec['a2'])) / 2
+    xname = case['xvect']
+    X = o_xvect(A1, A2, xname)
+    xh, yh = (np.array(t) for t in o_axes(A1, A2, X))
+    kwx = {} if xname == 'default' else {'xvect': np.array([float(t) for t in X])}
+    En, Dn = np.array(spec['E'], dtype=float), (np.array(spec['delta'], dtype=float) if has_d else None)
+    # the flag `smooth` given as a truthy / falsy NON-bool (1, 0, numpy booleans -- what a comparison of arrays yields):
+    # either refused, or what the bool of the same truth value gives -- never silently the other branch
+    f1, f2, _ = _count_queries(spec, 9, case['qseed'])
+    for nm, fn in (('E_gsf', g.E_gsf),) + ((('delta', g.delta),) if has_d else ()):
+        for val in (1, 0, np.True_, np.False_, np.int64(1), np.int64(0)):
+            ref, r = call(fn, a1=f1.copy(), a2=f2.copy(), smooth=bool(val)), call(fn, a1=f1.copy(), a2=f2.copy(), smooth=val)
+            ctx.stats.case('s:counts:flagform', (spec['tag'], nm, repr(val), case['qseed']))
+            if not isinstance(r, Raised) and not isinstance(ref, Raised) and _cmp(r, ref, 0, 0):
+                bad('flag-form', f'{nm}(a1=, a2=, smooth={val!r}) is accepted but is not {nm}(smooth={bool(val)}): {_cmp(r, ref, 0, 0)}; a1={f1.tolist()}, a2={f2.tolist()} {tag}')
+    for n in case['sizes']:
+        q1, q2, node = _count_queries(spec, n, case['qseed'])
+        isn = node >= 0
+        chunk = 1 if n <= 17 else 7 if n <= 600 else 61 if n <= 5000 else 251
+        sp = _special_idx(n)
+        ctx.stats.case('s:counts:gamma', (spec['tag'], spec['n1'], spec['n2'], n, case['qseed']), sample={'op': 'E_gsf / delta / conversions, n points in one call', 'n': n})
+
+        def first_bad(got, want, tol, mask=None):
+            """(index, got, want) of the worst point, or None."""
+            got, want = np.asarray(got, dtype=float), np.asarray(want, dtype=float)
+            if got.shape != want.shape:
+                return f'shape {got.shape} for {want.shape[0]} points'
+            err = np.abs(got - want) - tol
+            err[~np.isfinite(got)] = np.inf
+            if mask is not None:
+                err[~mask] = -1.0
+            if err.ndim > 1:
+                err = err.max(axis=1)
+            if (err > 0).any():
+                k_ = int(np.argmax(err))
+                return f'point #{k_} of {n} (a1={float(q1[k_])!r}, a2={float(q2[k_])!r}): {got[k_].tolist()!r} in the one call, {want[k_].tolist()!r} expected'
+            return None
+
+        def one_vs_parts(key, name, fn, tol, arrs, oracle=None, omask=None, otol=None, mask=None, parts=True):
+            """fn(**arrs) in ONE call against (a) the exact oracle where there is one, (b) the same points in chunks,
+            (c) the same points one at a time (scalars) at the special indices."""
+            full = call(fn, **{k: v.copy() for k, v in arrs.items()})
+            if isinstance(full, Raised):
+                bad(key, f'{name} with {n} points {full} {tag}')
+                return None
+            full = np.array([np.ravel(t) for t in full], dtype=float).T if isinstance(full, tuple) else np.asarray(full, dtype=float)
+            if full.ndim == 0:
+                full = full.reshape(1)
+            if oracle is not None:
+                w = first_bad(full, oracle, tol if otol is None else otol, omask)
+                if w:
+                    bad(key, f'{name} with {n} points in one call: {w} (independent value: {"input datum at a sampled shift + integer periods" if omask is not None else "own formula"}) {tag}')
+                    return full
+            if not parts:
+                # the oracle covers every point: only the first and the last point are asked alone as well
+                sp_ = [0, n - 1]
+            else:
+                sp_ = sp
+                parts = call(_chunked, fn, n, chunk, **arrs)
+            w = None if parts is False else str(parts) if isinstance(parts, Raised) else first_bad(full, parts.reshape(full.shape) if parts.size == full.size else parts, tol, mask)
+            if w:
+                bad(key, f'{name} with {n} points in one call differs from the same points asked {chunk} at a time: {w} {tag}')
+                return full
+            for i in sp_:
+                if mask is not None and not mask[i]:
+                    continue
+                r = call(fn, **{k: (float(v[i]) if v.ndim == 1 else v[i].copy()) for k, v in arrs.items()})
+                r1 = r if isinstance(r, Raised) else np.ravel(np.array([np.ravel(t) for t in r], dtype=float).T if isinstance(r, tuple) else np.asarray(r, dtype=float))
+                if isinstance(r1, Raised) or r1.shape != np.ravel(full[i]).shape or not np.all(np.abs(r1 - np.ravel(full[i])) <= tol):
+                    bad(key, f'{name}: point #{i} of {n} (a1={float(q1[i])!r}, a2={float(q2[i])!r}) gives {np.ravel(full[i]).tolist()} in the one call and '
+                             f'{r1 if isinstance(r1, Raised) else r1.tolist()} when asked alone {tag}')
+                    return full
+            return full
+
+        a12 = {'a1': q1, 'a2': q2}
+        wantE = np.where(isn, En[np.maximum(node, 0)], 0.0)
+        Ea = one_vs_parts('E_gsf', 'E_gsf(a1=, a2=)', g.E_gsf, tolE, a12, wantE, isn)
+        one_vs_parts('E_gsf-nearest', 'E_gsf(a1=, a2=, smooth=False)', lambda **kw: g.E_gsf(smooth=False, **kw), 1e-13 * scale, a12, wantE, isn)
+        if has_d:
+            wantD = np.where(isn, Dn[np.maximum(node, 0)], 0.0)
+            offl = (np.abs(q1 - np.round(q1)) > 1e-6) & (np.abs(q2 - np.round(q2)) > 1e-6)
+            one_vs_parts('delta', 'delta(a1=, a2=)', g.delta, tolD, a12, wantD, isn)
+            one_vs_parts('delta-nearest', 'delta(a1=, a2=, smooth=False)', lambda **kw: g.delta(smooth=False, **kw), 1e-13 * dscale, a12, wantD, isn)
+        # conversions: own formulas, vectorised in double from the exact shift vectors
+        P = q1[:, None] * A1f[None, :] + q2[:, None] * A2f[None, :]
+        XY = np.array([P @ xh, P @ yh]).T
+        span = 1 + float(np.abs(q1).max()) + float(np.abs(q2).max())
+        tolP, tolXY = 1e-12 * L * span, 1e-9 * L * span
+        one_vs_parts('a12_to_pos', 'a12_to_pos(a1, a2)', lambda a1, a2: g.a12_to_pos(a1, a2), tolP, a12, P, parts=False)
+        one_vs_parts('pos_to_a12', 'pos_to_a12(pos)', lambda pos: g.pos_to_a12(pos), 1e-9 * span, {'pos': P}, np.array([q1, q2]).T, parts=False)
+        one_vs_parts('pos_to_xy', f'pos_to_xy(pos, xvect={xname})', lambda pos: g.pos_to_xy(pos, **kwx), tolXY, {'pos': P}, XY, parts=False)
+        one_vs_parts('xy_to_pos', f'xy_to_pos(x, y, xvect={xname})', lambda x, y: g.xy_to_pos(x, y, **kwx), tolXY, {'x': XY[:, 0], 'y': XY[:, 1]}, P, parts=False)
+        one_vs_parts('a12_to_xy', f'a12_to_xy(a1, a2, xvect={xname})', lambda a1, a2: g.a12_to_xy(a1, a2, **kwx), tolXY, a12, XY, parts=False)
+        one_vs_parts('xy_to_a12', f'xy_to_a12(x, y, xvect={xname})', lambda x, y: g.xy_to_a12(x, y, **kwx), 1e-9 * span, {'x': XY[:, 0], 'y': XY[:, 1]}, np.array([q1, q2]).T, parts=False)
+        # interchangeable entry points (points ON a cell edge of a surface without blend strip are exempt: the float solve may
+        # land on either side of the jump)
+        if Ea is not None:
+            inner = ~(((c1_ < 1e-9) & (np.abs(q1 - np.round(q1)) < 1e-9)) | ((c2_ < 1e-9) & (np.abs(q2 - np.round(q2)) < 1e-9)))
+            one_vs_parts('E_gsf-pos', 'E_gsf(pos=)', lambda pos: g.E_gsf(pos=pos), tolE, {'pos': P}, Ea, inner, mask=inner, parts=False)
+            one_vs_parts('E_gsf-xy', f'E_gsf(x=, y=, xvect={xname})', lambda x, y: g.E_gsf(x=x, y=y, **kwx), tolE, {'x': XY[:, 0], 'y': XY[:, 1]}, Ea, inner, mask=inner, parts=False)
+            # the same n points as a 2-D array (what the surface plots pass)
+            for rows in (2, 3, 7):
+                if n % rows == 0 and n > rows:
+                    r = call(g.E_gsf, a1=q1.reshape(rows, -1).copy(), a2=q2.reshape(rows, -1).copy())
+                    w = str(r) if isinstance(r, Raised) else (f'shape {np.shape(r)}' if np.shape(r) != (rows, n // rows) else first_bad(np.ravel(r), Ea, tolE))
+                    if w:
+                        bad('E_gsf-2d', f'E_gsf(a1=, a2=) of shape {(rows, n // rows)} is not element-wise the flat query: {w} {tag}')
+                    break
+
+
+def _count_profile(seed, n, b):
+    """a uniform dyadic grid of n points centred on 0 and an arctangent-like disregistry from 0 to b with dyadic wiggles."""
+    np = _np()
+    r = random.Random(seed * 7919 + n)
+    dx = r.choice([0.125, 0.25, 0.0625]) if n > 64 else r.choice([0.25, 0.5])
+    x = (np.arange(n) - (n - 1) / 2) * dx + r.choice([0.0, 0.5])
+    t = 0.5 + np.arctan(x / 3.0) / math.pi
+    wig = np.array([[cm.dyadic(r, -0.25, 0.25, 4), 0.0, cm.dyadic(r, -0.25, 0.25, 4)] for _ in range(min(n, 97))])
+    d = np.outer(t, np.asarray(b, dtype=float)) + wig[np.arange(n) % len(wig)]
+    d[:, 1] = 0.0
+    return x, d
+
+
+def o_terms_np(K, b, st, x, d):
+    """the documented terms (see `o_terms`) for LARGE profiles: own double-precision evaluation, the elastic double sum row
+    by row with math.fsum-free pairwise numpy sums; returns {term: (value, sum of |summands|)}."""
+    np = _np()
+    x, d, K, b = (np.asarray(t, dtype=float) for t in (x, d, K, b))
+    n = len(x)
+    dx = float(x[1] - x[0])
+    out = {}
+
+    def dens(cd):
+        k = 2 if cd else 1
+        return (d[k:] - d[:-k]) / (x[k:] - x[:-k])[:, None]
+    rho = dens(st['cdiffelastic'])
+    nr = len(rho)
+    lg = np.zeros(nr + 2)
+    lg[1:] = np.log(np.arange(1, nr + 2) * dx)
+    kk = np.arange(nr + 2, dtype=float)
+    psi_tab = 0.5 * kk ** 2 * dx * dx * lg            # psi as a function of |i - j|
+    G = rho @ K @ rho.T if nr else np.zeros((0, 0))    # K_lm rho_l[i] rho_m[j]
+    tot = ab = 0.0
+    jj = np.arange(nr)
+    for i in range(nr):
+        dij = np.abs(i - jj)
+        chi = 1.5 * dx * dx + 2 * psi_tab[dij] - psi_tab[np.abs(i - jj + 1)] - psi_tab[np.abs(jj - i + 1)]
+        t = chi * G[i]
+        tot += float(t.sum())
+        ab += float(np.abs(t).sum())
+    out['elastic'] = (tot / (4 * math.pi), ab / (4 * math.pi) * max(1.0, math.log2(nr + 2)))
+    v = float(b @ K @ b) * math.log(st['cutofflongrange']) / (2 * math.pi)
+    out['longrange'] = (v, abs(v))
+    t2 = np.asarray(st['tau'], dtype=float)[1]
+    if st['fullstress']:
+        rho = dens(st['cdiffstress'])
+        m = len(rho)
+        t = -0.5 * (x[1:m + 1] ** 2 - x[:m] ** 2) * (rho @ t2)
+    else:
+        t = 0.5 * ((d[:-1] + d[1:]) @ t2) * dx
+    out['stress'] = (float(t.sum()), float(np.abs(t).sum()) + float(np.abs(x).max()) * float(np.abs(d).max()) * float(np.abs(t2).max()) * 3)
+    rho = dens(st['cdiffsurface'])
+    beta = np.asarray(st['beta'], dtype=float)
+    t = (rho ** 2 * dx) * (beta.sum(axis=1) / 4)[None, :]
+    out['surface'] = (float(t.sum()), float((rho ** 2 * dx).sum(axis=0) @ np.abs(beta).sum(axis=1)) / 4)
+    tot = ab = 0.0
+    for k, a in enumerate(st['alpha']):
+        m_ = k + 1
+        if n - 2 * m_ <= 0:
+            continue
+        t = float(a) * (d[m_:n - m_] * (d[m_:n - m_] - (d[2 * m_:] + d[:n - 2 * m_]) / 2)).sum(axis=1) * dx
+        tot += float(t.sum())
+        ab += float(np.abs(t).sum()) + abs(float(a)) * float((d[m_:n - m_] ** 2).sum()) * abs(dx)
+    out['nonlocal'] = (tot, ab)
+    return out
+
+
+def chk_counts_sdvpn(ctx, case, bad):
+    """every energy term, the total, disldensity on profiles of n points, n around the powers of two and the smallest
+    sizes (2, 3, 4): small n against the exact oracle (all argument subsets), large n against the documented formulas in
+    double and the gamma surface asked ONE POINT AT A TIME."""
+    np = _np()
+    try:
+        v, g, A1, A2, scale = _system(case)
+        st = dict(case['settings'])
+        pn = new_pn(v, g, st)
+    except cm.InfraError:
+        raise
+    except Exception as e:  # noqa
+        bad('construct', f'constructing the SDVPN object raised {type(e).__name__}: {e}')
+        return
+    K, b, T = np.array(pn.K_tensor, dtype=float), np.array(pn.burgers, dtype=float), np.array(pn.transform, dtype=float)
+    fl = {k: st[k] for k in FLAGS}
+    # the four flags given as truthy / falsy NON-bools (numpy booleans, 1 / 0) through the constructor, a setter or solve():
+    # refused (what the setters do), or the documented formulas for the bool of the same truth value
+    x5, d5 = _count_profile(case['pseed'], 6, b)
+    mod = sys.modules['atomman.defect.SDVPN']
+    for f in FLAGS:
+        for val in (np.bool_(st[f]), np.bool_(not st[f]), int(not st[f])):
+            for how in ('constructor', 'setter', 'solve'):
+                ctx.stats.case('s:counts:flagform', (case['system'], f, repr(val), how, case['pseed']))
+                if how == 'constructor':
+                    p2 = call(lambda: mod.SDVPN(volterra=v, gamma=g, tau=np.array(st['tau']), alpha=list(st['alpha']), beta=np.array(st['beta']),
+                                                cutofflongrange=st['cutofflongrange'], **{k: (val if k == f else st[k]) for k in FLAGS}))
+                    r = p2 if isinstance(p2, Raised) else None
+                else:
+                    p2 = new_pn(v, g, st)
+                    if how == 'setter':
+                        r = call(setattr, p2, f, val)
+                    else:
+                        orig, mod.minimize = mod.minimize, _FakeMin(random.Random(case['pseed']))
+                        try:
+                            r = call(p2.solve, x=x5.copy(), disregistry=d5.copy(), **{f: val})
+                        finally:
+                            mod.minimize = orig
+                if isinstance(r, Raised):
+                    continue        # refused: fine
+                _check_terms(ctx, case, bad, p2, g, K, b, T, A1, A2, dict(st, **{f: bool(val)}), x5, d5, 'both',
+                             f'{f}={val!r} ({type(val).__name__}) accepted by the {how}', scale)
+    for n in case['sizes']:
+        x, d = _count_profile(case['pseed'], n, b)
+        ctx.stats.case('s:counts:sdvpn', (case['system'], n, case['pseed'], str(fl)), sample={'op': 'energy terms on a profile of n points', 'n': n})
+        when = f'profile of n={n} points (seed {case["pseed"]})'
+        if n <= 16:
+            # which sizes the documented formulas are defined for: 2 points suffice for the neighbour difference, 3 for the central one
+            need = 3 if (st['cdiffelastic'] or st['cdiffsurface'] or (st['fullstress'] and st['cdiffstress'])) else 2
+            if n < need:
+                continue
+            _check_terms(ctx, case, bad, pn, g, K, b, T, A1, A2, st, x, d, 'both', when, scale)
+            continue
+        impl = _impl_terms(pn, {'x': x.copy(), 'disregistry': d.copy()})
+        want = o_terms_np(K, b, st, x, d)
+        mis = call(o_misfit, g, T, A1, A2, x, d, scale)
+        if isinstance(mis, Raised):
+            bad('misfit', f'{when}: evaluating the gamma surface point by point {mis}')
+            continue
+        want['misfit'] = mis
+        tot = tol_tot = 0.0
+        ok = True
+        for t in TERMS:
+            wv, wa = float(want[t][0]), float(want[t][1])
+            tol = 1e-9 * wa + 1e-12
+            tot += wv
+            tol_tot += tol
+            if isinstance(impl[t], Raised):
+                bad(t, f'{when}: {t}_energy(x=, disregistry=) {impl[t]} ({fl})')
+                ok = False
+            elif not abs(float(impl[t]) - wv) <= tol:
+                bad(t, f'{when}: {t}_energy(x=, disregistry=) = {float(impl[t])!r} but its documented formula'
+                       f'{" with the gamma surface asked one point at a time" if t == "misfit" else ""} gives {wv!r} '
+                       f'({fl}, alpha={st["alpha"]}, tau[1]={st["tau"][1]}, dx={float(x[1] - x[0])!r})')
+                ok = False
+        if ok and (isinstance(impl['total'], Raised) or not abs(float(impl['total']) - tot) <= tol_tot):
+            bad('total', f'{when}: total_energy(x=, disregistry=) = {impl["total"]!s} but the sum of the six documented terms is {tot!r} ({fl})')
+        for cd in (False, True):
+            r = call(pn.disldensity, x.copy(), d.copy(), cdiff=cd)
+            k_ = 2 if cd else 1
+            rho = (d[k_:] - d[:-k_]) / (x[k_:] - x[:-k_])[:, None]
+            w = str(r) if isinstance(r, Raised) else (_cmp(r[0], x[1:-1] if cd else x[1:], 0, 0) or _cmp(r[1], rho, 1e-12, 1e-13))
+            if w:
+                bad('disldensity', f'{when}: disldensity(x, disregistry, cdiff={cd}): {w}')
+
+
+def chk_counts(ctx, case):
+    kind = case['kind']
+
+    def bad(key, what):
+        ctx.violate(f'counts:{kind}:{key}', f'[counts] {what}' + (f' [{case["system"]}]' if 'system' in case else ''), case)
+    (chk_counts_gamma if kind == 'gamma' else chk_counts_sdvpn)(ctx, case, bad)
+
+
+def gen_counts_cases(ctx, rng, broken):
+    import atomman as am  # noqa
+    cases = []
+    th = bool(broken or ctx.thorough)
+    for it in range(3 if th else 1):
+        regime = rng.choice(['dyadic', 'generic'])
+        spec = gen_gamma_spec(rng, regime=regime, vects=rng.choice(VECTS), grid=rng.choice(GRIDS_DYADIC[:4] + GRIDS_DYADIC[6:] if regime == 'dyadic' else GRIDS_GENERIC[:6] + GRIDS_GENERIC[11:]),
+                              dup=rng.random() < 0.3, delta=True)
+        cases.append({'op': 'counts', 'kind': 'gamma', 'spec': spec, 'sizes': gen_count_sizes(rng, th and it == 0), 'qseed': rng.randrange(10 ** 6),
+                      'xvect': rng.choice(['default', 'a2', 'mix'])})
+    names = list(SYSTEMS)
+    rng.shuffle(names)
+    for it, name in enumerate(names[:4 if th else 2]):
+        v, spec = mk_system(name, rng, grid=rng.choice([(8, 3), (6, 4)]))
+        small = [2, 3, 4, 5]
+        # quick: one size just above 2^11 and the sizes n = 2^8 + 1 .. 2^8 + 3 (a density of k * 256 + 1 rows for either difference
+        # quotient) in the first case, two or three random ones below 2^11 in the others
+        large = PROFILE_SIZES[4:] if (th and it == 0) else sorted(set([257, 258, 259, rng.choice([2049, 2050, 2051])] if it == 0 else
+                                                                         rng.sample(PROFILE_SIZES[4:-5], 2) + [rng.choice([1025, 1026, 1027])]))
+        st = rand_settings(rng)
+        # more coefficients than the usual 1-3 (and, for the smallest profiles, more than there are neighbours)
+        st['alpha'] = [(cm.dyadic(rng, -1, 1, 4) or 0.5) * 0.2 for _ in range([5, 4, 7, 6][it % 4])]
+        cases.append({'op': 'counts', 'kind': 'sdvpn', 'system': name, 'spec': spec, 'settings': st, 'sizes': small + large, 'pseed': rng.randrange(10 ** 6)})
+    return cases
+
+
 CHECKS = {'gamma': chk_gamma, 'gseq': chk_gseq, 'sdvpn': chk_sdvpn, 'elastic': chk_elastic, 'solve': chk_solve, 'halfwidth': chk_halfwidth,
-          'arctan': chk_arctan, 'xcut': chk_xcut}
+          'arctan': chk_arctan, 'xcut': chk_xcut, 'counts': chk_counts}
 
 
 def run_case(ctx, case):
@@ -4271,13 +4697,14 @@ def gen_arctan_grid(rng, given):
     half of the cases are picked with the quotient just BELOW the integer, half just above or exact."""
     from decimal import Decimal
     want_below = rng.random() < 0.5
+    big = rng.random() < 0.15
     for _ in range(40):
-        k, n_ = rng.randint(3, 150), rng.randint(3, 80)
+        k, n_ = rng.randint(3, 150), (rng.choice([2, 3, 255, 256, 257, 1023, 1024, 1025, 2047, 2049, 4097]) if big else rng.randint(3, 80))
         xstep = float(Decimal(k) / 100)
         xmax = float(Decimal(k) * (n_ - 1) / 200) if 'xmax' in given else xstep * (n_ - 1) / 2
         if ((2 * xmax) / xstep < n_ - 1) == want_below:
             break
-    return {'n': n_, 'xstep': xstep, 'xmax': xmax, 'given': given}
+    return {'n': n_, 'xstep': xstep, 'xmax': xmax, 'given': given, 'xnum_form': rng.choice(['int', 'float', 'np.int64', 'np.float64']) if 'xnum' in given else 'int'}
 
 
 def search(ctx, broken):
@@ -4365,6 +4792,11 @@ def search(ctx, broken):
         run_case(ctx, case)
         ctx.extra['t_xcut_' + case['kind'] + '_s'] = round(ctx.extra.get('t_xcut_' + case['kind'] + '_s', 0.0) + time.time() - tk, 2)
     ctx.extra['t_search_xcut_s'] = round(time.time() - t3, 2)
+    # ---- counts and thresholds: one call with n points / profiles of n points, n around powers of two and k * block + 1
+    t4 = time.time()
+    for case in gen_counts_cases(ctx, rng, broken):
+        run_case(ctx, case)
+    ctx.extra['t_search_counts_s'] = round(time.time() - t4, 2)
     for it in range(ctx.n(20, 200)):
         n = rng.randint(3, 12)
         dx = rng.choice([0.25, 0.5, 0.1, 0.3])
@@ -4400,7 +4832,8 @@ MANIFEST = {
             'table of f; one real object and one model object under the same edit sequences) and a failing-input search with exact '
             'Fraction oracles of each documented formula; cross-cutting cases (non-default and changing working units, aliasing, input '
             'forms, power-of-two scales with scale-free refusals, falsy values, positional order, file-like models, repeated solves, '
-            'read order) decided against the same oracles',
+            'read order) and counts / thresholds (one call with 1 … 131073 points vs the points singly, profiles of 2 … 2051 points, non-bool '
+            'flags) decided against the same oracles',
     'note': 'solve-never-raises and the classical half-width are numerical clauses checked on the real code only (PARTIAL); the '
             'interpolant, log, arctan, sqrt and the minimiser are parameters of the model',
     'technique': 'Lean 4 theorems over a hand-written model + differential correspondence + exact-oracle search',
